@@ -324,7 +324,7 @@ Lemma last_text_snoc t h e :
 Proof.
   induction h as [|a h IH]; cbn [app last_text].
   - reflexivity.
-  - rewrite IH. destruct e as [tag o x| | |]; try reflexivity.
+  - rewrite IH. destruct e as [tag o x| | | |]; try reflexivity.
     destruct (String.eqb tag t); reflexivity.
 Qed.
 
@@ -337,7 +337,7 @@ Lemma last_obj_snoc t h e :
 Proof.
   induction h as [|a h IH]; cbn [app last_obj].
   - reflexivity.
-  - rewrite IH. destruct e as [tag o x| | |]; try reflexivity.
+  - rewrite IH. destruct e as [tag o x| | | |]; try reflexivity.
     destruct (String.eqb tag t); reflexivity.
 Qed.
 
@@ -361,7 +361,7 @@ Record Inv (h : list event) (y : sys) : Prop := {
   inv_keys2 : forall t, In t (keys (objs y)) -> slookup t (texts y) <> None \/ nopublish t = true
 }.
 
-Lemma text_of_some y t x : text_of y t = x -> x <> EmptyString -> slookup t (texts y) = Some x.
+Lemma text_of_some y t x : text_of y t = x -> x <> 0 -> slookup t (texts y) = Some x.
 Proof.
   unfold text_of. destruct (slookup t (texts y)); intros H Hx; subst; [reflexivity | contradiction].
 Qed.
@@ -369,7 +369,7 @@ Qed.
 Lemma inv_step h y e : wf_event e -> Inv h y -> Inv (h ++ [e]) (fst (step y e)).
 Proof.
   intros Hwf [Hnd Htx Hk1 Hk2].
-  destruct e as [tag obj text | | | now faults].
+  destruct e as [tag obj text | | | now faults | ].
   - (* Update *)
     cbn [wf_event] in Hwf. cbn [step].
     destruct (String.eqb tag "NEWDASTARD") eqn:End.
@@ -377,8 +377,8 @@ Proof.
       split; try assumption. intro t. rewrite Htx, last_text_snoc.
       destruct (String.eqb t "NEWDASTARD") eqn:E; [reflexivity|].
       rewrite String.eqb_sym, E. reflexivity.
-    + destruct (String.eqb (text_of y tag) text) eqn:Esame; cbn [negb fst].
-      * apply String.eqb_eq in Esame.
+    + destruct (text_of y tag =? text) eqn:Esame; cbn [negb fst].
+      * apply Z.eqb_eq in Esame.
         pose proof (text_of_some y tag text Esame Hwf) as Hl.
         split; try assumption. intro t. rewrite last_text_snoc.
         destruct (String.eqb tag t) eqn:E.
@@ -413,6 +413,8 @@ Proof.
       apply keys_sset in H. destruct H as [->|H]; [now right|].
       apply keys_sset in H. destruct H as [->|H]; [now right|].
       now apply Hk2.
+  - (* Restart *)
+    cbn [step fst]. split; try assumption. intro t. rewrite last_text_snoc. apply Htx.
 Qed.
 
 Lemma inv_init cfg d : Inv [] (init_sys cfg d).
@@ -433,7 +435,7 @@ Proof.
 Qed.
 
 Lemma in_sendall y o t b :
-  In (t, b) (flat_map (fun kv : string * string => publish (fst kv) (text_of y (fst kv))) o) <->
+  In (t, b) (flat_map (fun kv : string * value => publish (fst kv) (text_of y (fst kv))) o) <->
   In t (keys o) /\ nopublish t = false /\ b = text_of y t.
 Proof.
   unfold keys. induction o as [|[k v] r IH]; cbn [flat_map map fst In].
@@ -449,7 +451,7 @@ Qed.
 
 Lemma nodup_sendall y o :
   NoDup (keys o) ->
-  NoDup (map fst (flat_map (fun kv : string * string => publish (fst kv) (text_of y (fst kv))) o)).
+  NoDup (map fst (flat_map (fun kv : string * value => publish (fst kv) (text_of y (fst kv))) o)).
 Proof.
   unfold keys. induction o as [|[k v] r IH]; cbn [flat_map map fst]; intro H.
   - constructor.
@@ -499,7 +501,7 @@ Lemma last_obj_none t h : last_text t h = None -> last_obj t h = None.
 Proof.
   induction h as [|a h IH]; cbn [last_text last_obj]; [reflexivity|].
   destruct (last_text t h); [discriminate|]. rewrite (IH eq_refl).
-  destruct a as [tag o x| | |]; try reflexivity. destruct (String.eqb tag t); [discriminate | reflexivity].
+  destruct a as [tag o x| | | |]; try reflexivity. destruct (String.eqb tag t); [discriminate | reflexivity].
 Qed.
 
 Lemma last_pair t h x :
@@ -509,7 +511,7 @@ Proof.
   destruct (last_text t h) as [x'|] eqn:E.
   - intro H; inversion H; subst x'. destruct (IH eq_refl) as (o & Ho & Hin).
     exists o. rewrite Ho. split; [reflexivity | now right].
-  - rewrite (last_obj_none _ _ E). destruct a as [tag o x0| | |]; try discriminate.
+  - rewrite (last_obj_none _ _ E). destruct a as [tag o x0| | | |]; try discriminate.
     destruct (String.eqb tag t) eqn:Et; [|discriminate].
     apply String.eqb_eq in Et; subst tag. intro H; inversion H; subst x0.
     exists o. split; [reflexivity | now left].
@@ -522,7 +524,7 @@ Proof.
   unfold overlay. revert b. induction a as [|[k0 v0] r IH]; intros b Hnd; cbn [fold_left fst snd].
   - reflexivity.
   - inversion Hnd as [|? ? Hn Hr]; subst. rewrite (IH _ Hr).
-    unfold slookup at 3. cbn [lookup]. fold (@slookup string).
+    unfold slookup at 3. cbn [lookup]. fold (@slookup value).
     destruct (String.eqb k k0) eqn:E.
     + apply String.eqb_eq in E; subst k0.
       destruct (slookup k r) eqn:El.
@@ -531,7 +533,7 @@ Proof.
     + destruct (slookup k r); [reflexivity|]. rewrite slookup_sset, E. reflexivity.
 Qed.
 
-Lemma viper_set_all_other (o : list (string * string)) : forall over k,
+Lemma viper_set_all_other (o : list (string * value)) : forall over k,
   (forall t, In t (keys o) -> to_lower t <> k \/ nosave t = true) ->
   slookup k (viper_set_all o over) = slookup k over.
 Proof.
@@ -546,7 +548,7 @@ Proof.
     + intros t Ht. apply H. now right.
 Qed.
 
-Lemma viper_set_all_nodup (o : list (string * string)) : forall over,
+Lemma viper_set_all_nodup (o : list (string * value)) : forall over,
   NoDup (keys over) -> NoDup (keys (viper_set_all o over)).
 Proof.
   unfold viper_set_all. induction o as [|[t0 v0] r IH]; intros over H; cbn [fold_left fst snd].
@@ -554,7 +556,7 @@ Proof.
   - apply IH. destruct (nosave t0); [exact H | now apply nodup_sset].
 Qed.
 
-Lemma viper_set_all_sets (o : list (string * string)) : forall over t v,
+Lemma viper_set_all_sets (o : list (string * value)) : forall over t v,
   NoDup (keys o) ->
   (forall t1 t2, In t1 (keys o) -> In t2 (keys o) -> to_lower t1 = to_lower t2 -> t1 = t2) ->
   In (t, v) o -> nosave t = false ->
@@ -592,7 +594,7 @@ Lemma inv2_step cfg h y e :
   wf_event e -> consistent (h ++ [e]) -> Inv h y -> Inv2 cfg h y -> Inv2 cfg (h ++ [e]) (fst (step y e)).
 Proof.
   intros Hwf Hcons [Hnd Htx Hk1 Hk2] [Hob Hov Hk3 Hcfg].
-  destruct e as [tag obj text | | | now faults].
+  destruct e as [tag obj text | | | now faults | ].
   - cbn [wf_event] in Hwf. cbn [step].
     destruct (String.eqb tag "NEWDASTARD") eqn:End.
     + apply String.eqb_eq in End; subst tag. cbn [fst]. split; try assumption.
@@ -601,8 +603,8 @@ Proof.
         rewrite String.eqb_sym, E. reflexivity.
       * intros t Ht. rewrite updated_tags_snoc. specialize (Hk3 t Ht).
         apply in_app_or in Hk3. apply in_or_app. destruct Hk3; [left; apply in_or_app; now left | now right].
-    + destruct (String.eqb (text_of y tag) text) eqn:Esame; cbn [negb fst].
-      * apply String.eqb_eq in Esame.
+    + destruct (text_of y tag =? text) eqn:Esame; cbn [negb fst].
+      * apply Z.eqb_eq in Esame.
         pose proof (text_of_some y tag text Esame Hwf) as Hl.
         rewrite Htx, End in Hl.
         destruct (last_pair tag h text Hl) as (o1 & Ho1 & Hin1).
@@ -646,6 +648,9 @@ Proof.
       apply keys_sset in Ht. destruct Ht as [->|Ht]; [apply in_or_app; right; cbn; tauto|].
       apply keys_sset in Ht. destruct Ht as [->|Ht]; [apply in_or_app; right; cbn; tauto|].
       now apply Hk3.
+  - cbn [step fst]. split; try assumption.
+    + intros t Ht. rewrite last_obj_snoc. now apply Hob.
+    + intros t Ht. rewrite updated_tags_snoc, app_nil_r. now apply Hk3.
 Qed.
 
 Lemma inv2_run cfg d h :
@@ -767,13 +772,13 @@ Qed.
 Lemma opt_str_eqb_eq a b : opt_str_eqb a b = true -> a = b.
 Proof.
   destruct a, b; cbn; intro H; try discriminate; [|reflexivity].
-  apply String.eqb_eq in H. now subst.
+  apply Z.eqb_eq in H. now subst.
 Qed.
 
 Lemma last_text_updated t h x : last_text t h = Some x -> In t (updated_tags h).
 Proof.
   induction h as [|a h IH]; cbn [last_text updated_tags]; [discriminate|].
-  destruct a as [tag o x0| | |]; cbn [In];
+  destruct a as [tag o x0| | | |]; cbn [In];
     destruct (last_text t h) eqn:E; intro H; try discriminate; try (now apply IH).
   - right. now apply IH.
   - destruct (String.eqb tag t) eqn:Et; [|discriminate]. apply String.eqb_eq in Et. now left.
@@ -782,7 +787,7 @@ Qed.
 Lemma last_obj_updated t h x : last_obj t h = Some x -> In t (updated_tags h).
 Proof.
   induction h as [|a h IH]; cbn [last_obj updated_tags]; [discriminate|].
-  destruct a as [tag o x0| | |]; cbn [In];
+  destruct a as [tag o x0| | | |]; cbn [In];
     destruct (last_obj t h) eqn:E; intro H; try discriminate; try (now apply IH).
   - right. now apply IH.
   - destruct (String.eqb tag t) eqn:Et; [|discriminate]. apply String.eqb_eq in Et. now left.
@@ -814,7 +819,7 @@ Qed.
 Lemma entry_eqb_eq a b : entry_eqb a b = true <-> a = b.
 Proof.
   destruct a as [a1 a2], b as [b1 b2]. unfold entry_eqb. cbn [fst snd].
-  rewrite andb_true_iff, !String.eqb_eq. split; [intros [-> ->]; reflexivity | intro H; inversion H; auto].
+  rewrite andb_true_iff, String.eqb_eq, Z.eqb_eq. split; [intros [-> ->]; reflexivity | intro H; inversion H; auto].
 Qed.
 
 Lemma config_eqb_eq a b : config_eqb a b = true <-> a = b.
@@ -826,6 +831,14 @@ Proof.
   rewrite forallb_forall. intro H. exists old. split; [reflexivity|].
   intros r Hin. specialize (H r Hin). destruct r as [c|]; [|discriminate].
   apply orb_true_iff in H as [H | H]; apply config_eqb_eq in H; subst; auto.
+Qed.
+
+Lemma restored_check_sound before l : restored_check before l = true -> restored_spec before l.
+Proof.
+  unfold restored_check, restored_spec. intros H Hcur t o Hp Hr Hl.
+  rewrite Hcur in H. cbn [negb orb] in H. rewrite forallb_forall in H.
+  specialize (H t (last_obj_updated _ _ _ Hl)). rewrite Hp, Hr in H. cbn [andb negb orb] in H.
+  apply opt_str_eqb_eq in H. now rewrite H.
 Qed.
 
 (* what an accepted history means, position by position *)
@@ -849,26 +862,29 @@ Lemma checker_accepts_means pre e o post :
                    exists cfg, last reads None = Some cfg /\ saved_spec (map fst pre) cfg)
       | None => True
       end
+  | Restart, Restored l => restored_spec (map fst pre) l
   | _, _ => True
   end.
 Proof.
   intro H. apply (check_from_at [] pre e o post) in H. cbn [app] in H.
-  destruct e as [tag ob x| | |now faults], o as [l|b|tr reads]; try exact I.
+  destruct e as [tag ob x| | |now faults|], o as [l|b|tr reads|l]; try exact I.
   - cbn [check_one] in H. now apply sendall_check_sound.
   - cbn [check_one] in H. destruct (written_of tr) as [w|]; [|exact I].
     apply andb_true_iff in H as [Hc Hs]. split; [now apply crash_check_sound|].
     intro Hcomp. rewrite Hcomp in Hs. destruct (last reads None) as [cfg|]; [|discriminate].
     exists cfg. split; [reflexivity | now apply saved_check_sound].
+  - cbn [check_one] in H. now apply restored_check_sound.
 Qed.
 
 (* ---- concrete inputs meeting the hypotheses (non-vacuity) ---- *)
+(* values: 11/12 = two STATUS objects, 21/22 their texts, 31 = "1", 41 = "[]" *)
 Definition example_history : list event :=
-  [ Update "STATUS" "{""Nsamples"":1000}" "{""Running"":false,""Nsamples"":1000}";
-    Update "ALIVE" "1" "1";
-    Update "STATUS" "{""Nsamples"":2000}" "{""Running"":true,""Nsamples"":2000}";
+  [ Update "STATUS" 11 21;
+    Update "ALIVE" 31 31;
+    Update "STATUS" 12 22;
     SendAll;
-    Update "STATUS" "{""Nsamples"":2000}" "{""Running"":true,""Nsamples"":2000}";
-    Update "TRIGGER" "[]" "[]" ]%string.
+    Update "STATUS" 12 22;
+    Update "TRIGGER" 41 41 ]%string.
 
 Lemma example_wf : Forall wf_event example_history.
 Proof. repeat constructor; cbn; discriminate. Qed.
@@ -895,5 +911,5 @@ Qed.
 
 Lemma example_answer :
   snd (step (fst (run (init_sys [] [(Main, [])]) example_history)) SendAll)
-  = Published [("STATUS", "{""Running"":true,""Nsamples"":2000}"); ("ALIVE", "1"); ("TRIGGER", "[]")]%string.
+  = Published [("STATUS", 22); ("ALIVE", 31); ("TRIGGER", 41)]%string.
 Proof. vm_compute. reflexivity. Qed.
